@@ -9,6 +9,7 @@ import SlogModel.Model.Client
 import SlogModel.Model.Buffer
 import SlogModel.Model.Disk
 import SlogModel.Model.Reload
+import SlogModel.Model.Pipe
 import SlogModel.Gen.Facts
 import Driver.Util
 import Driver.XformParse
@@ -485,6 +486,22 @@ def handleReload : List String → String
     | none => "bad-op"
   | _ => "bad-op"
 
+
+/-! composed record path -/
+
+def handlePipe (st : DState) : List String → DState × String
+  | ["run", sec, nsec, h] =>
+    match sec.toInt?, nsec.toNat?, unhex h with
+    | some sec, some nsec, some line =>
+      let c : Pipe.Cfg := { parse := st.parseCfg, nFields := 15, off := 6, steps := st.xprog, ser := st.serCfg }
+      match Pipe.process c st.xstate line sec nsec with
+      | .ok (.rejected _, x) => ({ st with xstate := x }, "rejected")
+      | .ok (.filtered, x) => ({ st with xstate := x }, "filtered")
+      | .ok (.sent b, x) => ({ st with xstate := x }, "sent " ++ hex b)
+      | .error _ => (st, "panic")
+    | _, _, _ => (st, "bad-op")
+  | _ => (st, "bad-op")
+
 /-! client trace monitor -/
 
 def natList (t : String) : Option (List Nat) :=
@@ -546,6 +563,7 @@ def handle (st : DState) (line : String) : DState × String :=
   | "bufr" :: _ => (st, "any")   -- racy start (accept right after Start): judged by the harness oracle only
   | "disk" :: rest => handleDisk st rest
   | "reload" :: rest => (st, handleReload rest)
+  | "pipe" :: rest => handlePipe st rest
   | "agent" :: "script" :: _ => (st, "any")
   | ["redact", h] =>
     match unhex h with
